@@ -35,6 +35,10 @@ def run(chk: Check) -> None:
     # (the process is then unsuccessful, with the same result) -- shared with C12
     from .c12 import fallback_keeps_result
     fallback_keeps_result(chk, 'DOM-return-propagation')
+    # "if_ taking the first branch whose predicate is true": also after a checkpoint taken just before the if_ -- a loaded conditional stepper has a child only if one was
+    # saved, otherwise the predicates are (still) to be evaluated (shared with C08)
+    from .c08 import load_restores_only_saved_children
+    load_restores_only_saved_children(chk, 'DOM-if-short-circuit')
 
 
 def do_step(chk: Check) -> None:
